@@ -16,6 +16,9 @@ package cmd
 
 // `numscript run`: returns normally only when parsing and execution both succeeded
 //@ func run
+// NOT proved: the range a run-time error carries lies on the source that was parsed (it is the range of a node of that
+// script's tree: T3, the ranges of the tree lie on the text) - needed only for the panic freedom of the error display
+//@   assumespre ShowOnSource valid-range
 //@   assert [failure-exits] {C20} err == nil && len(parseResult.Errors) == 0
 
 // reading the inputs (files, --raw, stdin): NOT verified - what the decoders produce is outside the model; the
